@@ -1,6 +1,9 @@
 # C17 - each configuration switch silences exactly the diagnostics it names (DESIGN 5, C17)
 #
-# Two deciding legs.  c17.sites: the two places where the ignore-for-analysis rules decide (directory walk, per-file
+# Three deciding legs.  c17.live: histories of unsaved edits (didOpen + didChange to a text with / without syntax errors)
+# and settings notifications on the REAL server; the client's view after every step against the extracted model
+# (Config.step on the lsp state) and the extracted spec (ConfigSpec.spec_steps): after a settings change that takes effect
+# no file may keep showing what the new configuration excludes.  c17.sites: the two places where the ignore-for-analysis rules decide (directory walk, per-file
 # predicate IsNeedHandle), observed on the REAL server through the protocol only (which files hold diagnostics after
 # start-up / a settings change; which files answer a didOpen+didChange probe), against the extracted model
 # (is_handled / need_handle) and spec (spec_handled: a rule takes a file out iff it matches the file's name or a folder
@@ -17,6 +20,12 @@ WS = {
     "w2": ["c++/lib2.lua", "c+v/inc.lua", "common/test.lua", "one.lua", "port/off.lua", "port/on_a.lua", "port/on_b.lua", "tests/t1.lua"],
     "w3": ["calls/ptype.lua", "rets.lua", "top.lua"],     # types 10 and 24 side by side (+ 2, 4, 9, 15, 16)
 }
+# leg c17.live only (clean.lua has no diagnostic on disk; c17.sites needs a diagnostic in every file)
+WS_LIVE = {
+    "w4": ["clean.lua", "dir/broken.lua", "dir/warn.lua", "top.lua"],
+}
+ALL_WS = dict(WS, **WS_LIVE)
+NTEXTS = 6                                           # probe texts of harness/legs_c17.go c17LiveTexts
 NFLAGS = 26
 SPECIAL = [2, 3, 10, 11, 12]
 # the gate list of IsSpecialCheck after the repair (Config.gate_types_fixed); 26 and 27 have no client switch
@@ -48,7 +57,7 @@ def jsoncfg(show=1, ign=(), op=(), ih=(), ie=(), ft=(), entry=0):
 
 
 def case(ws, root, js, c0, changes):
-    return "%s %s %s %s %s %s" % (ws, hx(root), names(WS[ws]), js or "-", c0, "|".join(changes) if changes else "-")
+    return "%s %s %s %s %s %s" % (ws, hx(root), names(ALL_WS[ws]), js or "-", c0, "|".join(changes) if changes else "-")
 
 
 ALL_ON = [True] * NFLAGS
@@ -125,7 +134,7 @@ BAD_REGEXES = ["(", "[a", "a{2,1}", "*", "on(.lua", "\\", "(?P<n", "x.lua)", "+.
 
 
 def rand_pattern(rng, ws, allow_bad):
-    files = WS[ws]
+    files = ALL_WS[ws]
     m = rng.random()
     if m < 0.30:                                     # a file, literally
         return rng.choice(files)
@@ -156,7 +165,7 @@ def rand_patterns(rng, ws, allow_bad, p_some=0.5):
 
 
 def rand_site_pattern(rng, ws):
-    return rng.choice(SITE_PATTERNS[ws]) if rng.random() < 0.7 else rand_pattern(rng, ws, True)
+    return rng.choice(SITE_PATTERNS[ws]) if ws in SITE_PATTERNS and rng.random() < 0.7 else rand_pattern(rng, ws, True)
 
 
 def rand_site_patterns(rng, ws, p_some=0.5):
@@ -206,8 +215,8 @@ def rand_json(rng, ws, bad=0.04):
     return jsoncfg(show, ign, op, ih, ie, ft)
 
 
-# the model variant in use (ocaml leg c17.variant: regexp gate coupled dead dup sites), set by main() before the legs run
-VARIANT = "111111"
+# the model variant in use (ocaml leg c17.variant: regexp gate coupled dead dup sites live), set by main() before the legs run
+VARIANT = "1111111"
 
 
 def to_json_of(flags, ih, ie):
@@ -312,6 +321,148 @@ def gen_sites(rng, tier):
         ih0 = rand_site_patterns(rng, ws, 0.5) if route else ()
         out.append(sites_case(rng, ws, ih, route, ih0))
     return out
+
+
+# ---- leg c17.live: unsaved buffers and settings changes ----
+
+def live_case(ws, root, js, c0, changes, script):
+    return case(ws, root, js, c0, changes) + " " + (",".join(script) if script else "-")
+
+
+def live_client(rng, ws):
+    """a new configuration for a settings change: mostly one that EXCLUDES something on display"""
+    files = ALL_WS[ws]
+    m = rng.random()
+    if m < 0.14:
+        return client(flags_off(0))                                  # master switch off
+    if m < 0.30:
+        return client(flags_off(1))                                  # CheckSyntax off
+    if m < 0.44:                                                     # silence a file / folder (IgnoreFileOrDirError)
+        f = rng.choice(files)
+        return client(ALL_ON, [], [rng.choice([f, f.split("/")[0] + "/" if "/" in f else f, f[:-4]])])
+    if m < 0.56:                                                     # take a file / folder out of the analysis
+        f = rng.choice(files)
+        return client(ALL_ON, [rng.choice([f, f.split("/")[0] + "/" if "/" in f else f, "^" + f.replace(".", "\\.") + "$"])], [])
+    if m < 0.66:                                                     # something unrelated to type 1
+        return client(flags_off(rng.randrange(2, NFLAGS)))
+    if m < 0.76:
+        return client(ALL_ON)
+    return rand_client(rng, ws, 0.0)
+
+
+def gen_live(rng, tier):
+    n = {"quick": 1200, "thorough": 25000, "search": 600}[tier]
+    out = []
+    on = client(ALL_ON)
+    if tier != "search":
+        # the witness shape on every file of w4 (and one file of each other workspace), for each excluding change,
+        # re-edit with and without a new didOpen, and the same with the change NOT excluding type 1
+        for ws, idxs in (("w4", range(4)), ("w1", [3]), ("w2", [3]), ("w3", [2])):
+            for i in idxs:
+                f = ALL_WS[ws][i]
+                for c1 in (client(flags_off(1)), client(flags_off(0)), client(ALL_ON, [], [f]), client(ALL_ON, [f], []),
+                           client(flags_off(4)), on):
+                    for k in (0, 1):
+                        again = ("B%d.%d" if k == 0 else "b%d.%d") % (i, k)
+                        out.append(live_case(ws, rand_root(rng, 0), None, on, [on, c1], ["c0", "b%d.%d" % (i, k), "c1", again]))
+        # the first notification is swallowed whatever it says; luahelper.json rules
+        out.append(live_case("w4", rand_root(rng, 0), None, on, [client(flags_off(1))], ["b0.0", "c0", "b0.0"]))
+        out.append(live_case("w4", rand_root(rng, 0), jsoncfg(1, [], list(range(22, 30))), on, [on, client(flags_off(1))],
+                             ["c0", "b0.0", "c1", "b0.0"]))
+    fixed = len(out)
+    wss = ["w4"] * 6 + sorted(WS)
+    while len(out) < n + fixed:
+        ws = rng.choice(wss)
+        files = ALL_WS[ws]
+        root = rand_root(rng)
+        js = None
+        if rng.random() < 0.06:
+            js = rand_json(rng, ws, 0.0)
+        c0 = on if rng.random() < 0.5 else rand_client(rng, ws, 0.0)
+        nch = rng.choice([1, 1, 1, 2, 2, 3])
+        sync = rng.random() < 0.85
+        changes = ([c0] if sync else []) + [live_client(rng, ws) for _ in range(nch)]
+        # a didChange without a new didOpen (B/G) is sent only for a file whose didOpen was certainly accepted: it was
+        # opened while no ignore-for-analysis rule had been seen yet (the server keeps the text of an accepted didOpen)
+        plain = [js is None and c0.split(";")[1] == "_"]
+        edited = rng.sample(range(len(files)), rng.choice([1, 1, 2, 3]))
+        if ws == "w4" and rng.random() < 0.6 and 0 not in edited:
+            edited[0] = 0                                            # the file that is clean on disk
+        opened = set()
+        script = []
+
+        def edits(k):
+            for _ in range(k):
+                i = rng.choice(edited)
+                broken = rng.random() < 0.75
+                if i in opened and rng.random() < 0.5:
+                    script.append(("B%d.%d" % (i, rng.randrange(NTEXTS))) if broken else "G%d" % i)
+                else:
+                    script.append(("b%d.%d" % (i, rng.randrange(NTEXTS))) if broken else "g%d" % i)
+                    if plain[0]:
+                        opened.add(i)
+        first = True
+        for j in range(len(changes)):
+            if not (first and sync) or rng.random() < 0.25:
+                edits(rng.choice([1, 1, 2, 3]))
+            script.append("c%d" % j)
+            if j > 0 and changes[j].split(";")[1] != "_":          # (the first notification is swallowed)
+                plain[0] = False
+            first = False
+        edits(rng.choice([0, 1, 1, 2]))
+        out.append(live_case(ws, root, js, c0, changes, script))
+    return out
+
+
+def nontrivial_live(c):
+    """an edit to a text with syntax errors followed, later, by a settings notification"""
+    st = c.split(" ")[6].split(",")
+    for a, x in enumerate(st):
+        if x[0] in "bB" and any(y[0] == "c" for y in st[a + 1:]):
+            return True
+    return False
+
+
+def shrink_live(c):
+    f = c.split(" ")
+    base, script = " ".join(f[:6]), f[6]
+    st = script.split(",") if script != "-" else []
+    root = bytes.fromhex(f[1]).decode("latin1").split("~")[0]
+    for i in range(len(st)):
+        r = st[:i] + st[i + 1:]
+        g = list(f[:6]); g[1] = hx(root + "~s%d" % i)
+        yield " ".join(g) + " " + (",".join(r) if r else "-")
+    for cand in shrink_case(base):
+        g = cand.split(" ")
+        nch = 0 if g[5] == "-" else len(g[5].split("|"))
+        if all(int(x[1:]) < nch for x in st if x[0] == "c"):         # a dropped notification would leave a dangling step
+            yield cand + " " + script
+
+
+def describe_live(c):
+    return (describe(c) + " script[%s]" % c.split(" ")[6])[:1100]
+
+
+def live_distribution(rows):
+    import collections
+    d = collections.Counter()
+    for c, i, m, s, k in rows:
+        f = c.split(" ")
+        st = f[6].split(",") if f[6] != "-" else []
+        d["luahelper.json" if f[3] != "-" else "client settings"] += 1
+        d["workspace " + f[0]] += 1
+        d["steps"] += len(st)
+        d["edits to a broken text"] += sum(1 for x in st if x[0] in "bB")
+        d["edits to a clean text"] += sum(1 for x in st if x[0] in "gG")
+        d["settings notifications"] += sum(1 for x in st if x[0] == "c")
+        views = i.split("|")
+        if len(views) == len(st) + 1:
+            for a, x in enumerate(st):
+                if x[0] == "c" and views[a + 1] != "=":
+                    d["settings notifications that changed the view"] += 1
+        else:
+            d["other: " + i[:20]] += 1
+    return dict(d)
 
 
 def nontrivial_sites(c):
@@ -439,7 +590,8 @@ def sites_distribution(rows):
 
 LEG = Leg("c17.filter", gen_filter, nontrivial=nontrivial, shrink=shrink_case, per_case_s=3.0, describe=describe)
 LEG_SITES = Leg("c17.sites", gen_sites, nontrivial=nontrivial_sites, shrink=shrink_case, per_case_s=3.0, describe=describe)
-LEGS = [LEG_SITES, LEG]
+LEG_LIVE = Leg("c17.live", gen_live, nontrivial=nontrivial_live, shrink=shrink_live, per_case_s=3.0, describe=describe_live)
+LEGS = [LEG_LIVE, LEG_SITES, LEG]
 
 # The model variant (one boolean per fix: commit) follows the code through the translator (coq/Generated/GenFlags.v ->
 # Tie.fixes_now); C17_FIXED in the environment overrides it (see ocaml/c17_run.ml).
@@ -451,10 +603,12 @@ class C17Runner(vlib.Runner):
     rawcache = {}
 
     def eval_cases(self, leg, cases):
-        if leg.name not in ("c17.filter", "c17.sites"):
+        if leg.name not in ("c17.filter", "c17.sites", "c17.live"):
             return super().eval_cases(leg, cases)
-        base = [" ".join(c.split(" ")[:6]) for c in cases]
         menv = dict(os.environ, **MODEL_ENV)
+        if leg.name == "c17.live":
+            return self.eval_live(leg, cases, menv)
+        base = [" ".join(c.split(" ")[:6]) for c in cases]
         # stage 1: Go regexp on every (pattern, name) pair of the case
         re = run_worker([self.impl_exe, "c17.re"], base, 0.05)
         c1 = [c + " " + r for c, r in zip(base, re)]
@@ -494,6 +648,44 @@ class C17Runner(vlib.Runner):
             rows.append((c, i, parts[0], parts[1], parts[2]))
         return rows
 
+    syncache = None
+
+    def eval_live(self, leg, cases, menv):
+        """oracle stages of leg c17.live: Go regexp table -> sets of analysed files the history meets (model) -> the
+        everything-enabled run for each of them; plus the syntax errors of the probe texts"""
+        base = [" ".join(c.split(" ")[:7]) for c in cases]
+        if C17Runner.syncache is None:
+            outs = run_worker([self.impl_exe, "c17.syn"], [str(k) for k in range(NTEXTS)], 3.0, jobs=min(vlib.NCPU, NTEXTS))
+            C17Runner.syncache = ",".join("%d=%s" % (k, o) for k, o in enumerate(outs))
+        syn = C17Runner.syncache
+        re = run_worker([self.impl_exe, "c17.re"], base, 0.05)
+        c1 = [c + " " + r for c, r in zip(base, re)]
+        masks = run_worker([self.model_exe, "c17.live.masks"], c1, 0.05, env=menv)
+        keys = []
+        for c, ms in zip(base, masks):
+            for m in ms.split(","):
+                k = c.split(" ")[0] + " " + m
+                if set(m) <= {"0", "1"} and m and k not in self.rawcache and k not in keys:
+                    keys.append(k)
+        if keys:
+            outs = run_worker([self.impl_exe, "c17.raw"], keys, 3.0, jobs=min(vlib.NCPU, len(keys)))
+            for k, o in zip(keys, outs):
+                self.rawcache[k] = o
+        c2 = []
+        for c, ms in zip(c1, masks):
+            ws = c.split(" ")[0]
+            tab = "/".join("%s=%s" % (m, self.rawcache.get(ws + " " + m, "RAW-UNAVAILABLE")) for m in ms.split(","))
+            c2.append(c + " " + tab + " " + syn)
+        impl = run_worker([self.impl_exe, "c17.live"], c2, leg.per_case_s, jobs=min(vlib.NCPU, max(1, len(c2) // 4)))
+        mod = run_worker([self.model_exe, "c17.live"], c2, 0.05, env=menv)
+        rows = []
+        for c, i, m in zip(c2, impl, mod):
+            parts = m.split("\t")
+            while len(parts) < 3:
+                parts.append("-")
+            rows.append((c, i, parts[0], parts[1], parts[2]))
+        return rows
+
     def shrink(self, leg, rec, budget_s=60):
         # candidates are base cases (6 fields); the completed case is much longer, so compare on the base part
         if not leg.shrink:
@@ -508,11 +700,12 @@ class C17Runner(vlib.Runner):
             if not cands:
                 break
             rows = self.eval_cases(leg, cands)
-            curlen = len(" ".join(cur["case"].split(" ")[:6]))
+            nb = 7 if leg.name == "c17.live" else 6
+            curlen = len(" ".join(cur["case"].split(" ")[:nb]))
             for row in rows:
                 kind, _ = self.classify(leg, row)
                 if kind == cur["kind"] or (cur["kind"] == "corr+violation" and kind == "unlisted"):
-                    if len(" ".join(row[0].split(" ")[:6])) < curlen:
+                    if len(" ".join(row[0].split(" ")[:nb])) < curlen:
                         cur = {"leg": leg.name, "case": row[0], "impl": row[1], "model": row[2], "spec": row[3],
                                "class": row[4], "kind": kind, "described": leg.describe(row[0]),
                                "shrunk_from": rec["case"][:2000]}
@@ -524,6 +717,8 @@ class C17Runner(vlib.Runner):
 TRUSTED = vlib.TRUSTED_COMMON + [
     "oracle: Go regexp (Section variables re_ok / re_match; every theorem holds for any regexp engine); the leg c17.re calls package regexp directly",
     "oracle: raw = diagnostics of the everything-enabled run over the analysed files (Section variable; leg c17.raw runs the real server with luahelper.json {IgnoreErrorTypes:[], OpenErrorTypes:[22..29]}, the files not analysed excluded by their literal names)",
+    "oracle: the syntax errors of the six probe texts an unsaved buffer is changed to (leg c17.syn: the real server, every check enabled, one clean file, didOpen + didChange); in the theorems the errors of an edit are arbitrary diagnostics of the edited file of type 1 (edits_wf)",
+    "modelled, tied by correspondence (leg c17.live): TextDocumentDidChange (IsNeedHandle, HandleFileChangeAnalysis -> InsertError -> IsIgnoreErrorFile, InsertChangeFileErr / ClearChangeFileErr / ClearFileSyntaxErr), handleChange (clearLspServer, re-analysis from disk, pushAllDiagnosticsAgain), fileErrorMap / fileChangeErrorMap; tied by translator: the statements of clearLspServer (GenFlags.settings_clear_steps -> Tie fx_live_now)",
     "hand table validated by correspondence only: produced_in / cross_types (which pass emits which type); for the variants before the repairs also global_prereq (17 behind 4, 24 behind 10) and the type-11 reference table of the test workspaces (harness/c17_ws.go c17Refs)",
     "modelled, tied by correspondence: handleNotJSONCheckFlag, HandleChangeCheckList, ReadConfig (json branch), ChangeConfiguration (first notification swallowed), IsIgnoreErrorFile, isIgnoreFloder/isIgnoreFile/isIgnoreRelFile + directory walk (getAllFile) + per-file predicate (IsIgnoreCompleteFile behind IsNeedHandle; leg c17.sites), IsSpecialCheck + HandleCheck gate",
     "tied by translator (coq/Generated/GenFlags.v, GenErrTypes.v -> Tie/TieConfig.v): order of getCheckFlagList / getWarnCheckList, json tags of InitializationOptions / WarnParams, errTypeList of IsSpecialCheck (covers every cross-file type), error type constants, open_required (= the types looked up in OpenErrorTypeMap by check/analysis), the table of every IsGlobalIgnoreErrType / IsIgnoreErrorFile use inside check/analysis (repaired shape), the OpenErrorTypeMap write of handleNotJSONCheckFlag, the IgnoreFileErrTypesMap read of ReadConfig, which ignore helper getAllFile / IsIgnoreCompleteFile / isIgnoreRelFile call; Properties/C17.v C17_code_is_deployed_variant: fixes_now = deployed",
@@ -534,6 +729,7 @@ ASSUMPTIONS = [
     "client protocol: the first workspace/didChangeConfiguration after initialize repeats the initializationOptions (vscode-languageclient synchronize); the server swallows it",
     "LocalRun is modelled only as far as the nil-map fault at initialize goes (the test workspaces use no system globals, so the system-module list it installs does not change their diagnostics)",
     "pattern matching is on the absolute file name (IsIgnoreErrorFile) resp. the names relative to the workspace (ignore for analysis: the file's name with and without the leading separator and the folders on its way), as in the code; the spec uses the same names; the spec of the ignore-for-analysis rules does NOT use the code's classification of the entries by a literal '.lua' suffix",
+    "leg c17.live: an edit is didOpen (the text on disk) followed by didChange with the full new text (B/G steps: didChange only, generated only where no ignore-for-analysis rule occurs in the case); histories contain edits and settings notifications only - saves, closes and watched-file events (which re-analyse single files and are the subject of C08) do not occur; a settings change that takes effect is specified as a fresh start from disk: the syntax errors of a still-unsaved buffer that the new configuration allows come back with the next edit, not at once (what the code does, before and after the repair, for files with saved diagnostics)",
     "leg c17.sites observes 'scanned by the walk' as 'the client holds diagnostics of the file' (every switch on, no silencing rule, every file of the test workspaces has a diagnostic of its own) and 'accepted by IsNeedHandle' as 'a didOpen + didChange probe yields a diagnostic on the probe line'; only files of the main workspace folder (sub-directories configured elsewhere and the client's extra Lua path are walked without ignore rules in the code and are outside the model)",
 ]
 
@@ -546,21 +742,25 @@ def main(tier, seed):
     if can_run:
         global VARIANT
         v = run_worker([r.model_exe, "c17.variant"], ["-"], 0.05, env=dict(os.environ, **MODEL_ENV))
-        if v and len(v[0]) == 6 and set(v[0]) <= {"0", "1"}:
+        if v and len(v[0]) == 7 and set(v[0]) <= {"0", "1"}:
             VARIANT = v[0]
-        extra["model_variant"] = {"regexp gate coupled dead dup sites": VARIANT}
+        extra["model_variant"] = {"regexp gate coupled dead dup sites live": VARIANT}
         os.makedirs("/tmp/lhc17", exist_ok=True)
         r.replay_findings({l.name: l for l in LEGS})
         for leg in LEGS:
             rows = r.run_leg(leg)
             if leg.name == "c17.filter":
                 extra["input_distribution"] = distribution(rows, r.rawcache)
+            elif leg.name == "c17.live":
+                extra["live_distribution"] = live_distribution(rows)
             else:
                 extra["sites_distribution"] = sites_distribution(rows)
     LEG_RULE = ("non-trivial = anything but 'every switch on, no pattern, no luahelper.json, no change'; observable = sorted "
                 "(file, type, line, column) of the client's final publishDiagnostics view, or CRASH <reason>")
     SITES_RULE = ("non-trivial = at least one ignore-for-analysis entry; observable = per file of the workspace: holds "
                   "diagnostics after the (last) walk / answers the didOpen+didChange probe")
+    LIVE_RULE = ("non-trivial = an edit to a text with syntax errors followed, later, by a settings notification; observable = "
+                 "the client's publishDiagnostics view (sorted file, type, line, column) after initialize and after every step")
     for st in r.leg_stats:
-        st["rule"] = SITES_RULE if st.get("leg") == "c17.sites" else LEG_RULE
+        st["rule"] = {"c17.sites": SITES_RULE, "c17.live": LIVE_RULE}.get(st.get("leg"), LEG_RULE)
     return r.finish(LEGS, extra_cov=extra, trusted=TRUSTED, assumptions=ASSUMPTIONS)
